@@ -201,6 +201,20 @@ def p_item(mpath, k, bump=0, arg=None):
     return ('own', y)
 
 
+def p_item_stubborn(mpath, k, bump=0, arg=None):
+    """item 2 never ends and swallows whatever is raised in it: only a forced termination stops this worker"""
+    import time
+    mark(mpath, 'item %d start' % k)
+    if k == 2:
+        while True:
+            try:
+                time.sleep(0.05)
+            except BaseException:  # noqa
+                pass
+    mark(mpath, 'item %d ret' % k)
+    return ('own', k + bump)
+
+
 def p_item_big(mpath, k, bump=0, arg=None):
     """item 2 comes with 32 MB of padding (more than the socket buffers hold): its result message is read by the receiving side in many pieces"""
     mark(mpath, 'item %d start' % k)
